@@ -83,12 +83,16 @@ SweepField(f) == \E i \in 1..Len(cfg) : cfg[i].sweep.on /\
       [] f = "const" -> SetNode(i, [cfg[i] EXCEPT !.sweep.expr = <<"+", @, <<"c", 1>>>>])
       [] f = "noncomm" -> /\ Len(cfg[i].sweep.expr) = 3 /\ cfg[i].sweep.expr[1] = "-" /\ cfg[i].sweep.expr[2] # cfg[i].sweep.expr[3]
                           /\ SetNode(i, [cfg[i] EXCEPT !.sweep.expr = <<"-", @[3], @[2]>>])
+      [] f = "oproot" -> /\ Len(cfg[i].sweep.expr) = 3 /\ cfg[i].sweep.expr[1] \in {"+", "*"}
+                         /\ SetNode(i, [cfg[i] EXCEPT !.sweep.expr[1] = IF @ = "+" THEN "*" ELSE "+"])
+      [] f = "opinner" -> /\ Len(cfg[i].sweep.expr) = 3 /\ Len(cfg[i].sweep.expr[2]) = 3 /\ cfg[i].sweep.expr[2][1] \in {"+", "*"}
+                          /\ SetNode(i, [cfg[i] EXCEPT !.sweep.expr[2][1] = IF @ = "+" THEN "*" ELSE "+"])
       [] f = "el"    -> LET e2 == IF cfg[i].proc = "FloatValueDataSource" THEN "FloatValueDataSourceWithDefault" ELSE "FloatValueDataSource"
                         IN SetNode(i, [cfg[i] EXCEPT !.sweep.el = e2, !.proc = e2])     \* the wrapped processor
 SweepName(f) == CASE f = "vals" -> "SetSweep_vals" [] f = "val1" -> "SetSweep_val1" [] f = "mode" -> "SetSweep_mode"
                    [] f = "bc" -> "SetSweep_bc" [] f = "const" -> "SetSweep_const" [] f = "noncomm" -> "SetSweep_noncomm"
-                   [] f = "el" -> "SetSweep_el"
-SetSweep == \E f \in {"vals", "val1", "mode", "bc", "const", "noncomm", "el"} : SweepField(f) /\ last' = SweepName(f)
+                   [] f = "el" -> "SetSweep_el" [] f = "oproot" -> "SetSweep_oproot" [] f = "opinner" -> "SetSweep_opinner"
+SetSweep == \E f \in {"vals", "val1", "mode", "bc", "const", "noncomm", "el", "oproot", "opinner"} : SweepField(f) /\ last' = SweepName(f)
 Semantic == SetProcessor \/ SetParam \/ SetSubParam \/ DropNode \/ DupNode \/ SwapNodes \/ SetSweep
 
 Init == cfg \in Seeds /\ last = "" /\ steps = 0 /\ base = cfg
